@@ -5,7 +5,7 @@ import glob, json, subprocess, sys
 pid, wt = sys.argv[1], sys.argv[2]
 base = subprocess.run(['/verif/tools/redteam_fill.py', pid, wt], capture_output=True, text=True).stdout
 prev = []
-for m in sorted(glob.glob('/verif/seeded/%s-[mnp]*/meta.json' % pid.lower())):
+for m in sorted(glob.glob('/verif/seeded/%s-[mnpq]*/meta.json' % pid.lower())):
     d = json.load(open(m))
     prev.append("  - %s (site: %s; needs: %s)" % (d.get('summary', '')[:300], d.get('site', '?'), str(d.get('needs', ''))[:300]))
 extra = """
@@ -14,4 +14,4 @@ ALREADY DONE BY OTHER ENGINEERS (do NOT repeat these mechanisms, code sites or t
 
 For this second round, prefer defects of these kinds if the code offers them: (1) state that leaks between calls on the same object or between objects (caches, memoisation with an incomplete key, re-used scratch buffers, returned arrays that alias internal state); (2) boundary values of configuration parameters (0, 1, exactly-equal cases, odd vs even, non-integer rates, negative axes, empty inputs); (3) behaviour that only differs for large inputs (block/buffer boundaries) or for rarely used but documented options; (4) two code sites that must agree (a writer and a reader, a forward and an inverse, a NumPy and a PyTorch implementation) where only one is changed.
 """ % "\n".join(prev)
-print(base.replace("YOUR TASK:", extra + "\nYOUR TASK:", 1).replace("out/m<k>", "out/q<k>"))
+print(base.replace("YOUR TASK:", extra + "\nYOUR TASK:", 1).replace("out/m<k>", "out/r<k>"))
